@@ -432,6 +432,11 @@ func (d *driver) preface(r int) {
 			d.do("Tick", M{"dt": int64(6)}) // the sweep looks at the nearly unsafe positions too
 			d.do("Tick", M{"dt": int64(6)})
 			d.aim(b, 1.02, 1.2)
+			d.do("Kill", M{"on": true}) // circuit breaker on: neither the sweep nor the message may seize the unsafe positions
+			d.do("Tick", M{"dt": int64(6)})
+			d.do("Tick", M{"dt": int64(6)})
+			d.do("LiquidateV1", M{"u": "kp", "b": int64(b.ID)})
+			d.do("Kill", M{"on": false})
 			if r%2 == 0 {
 				d.do("LiquidateV1", M{"u": "kp", "b": int64(b.ID)})
 			}
